@@ -44,6 +44,7 @@ type FsCase struct {
 	OnlyVia    string `json:"only_via,omitempty"`
 	MemFS      bool   `json:"memfs,omitempty"`       // FSLibrary over the in-memory FS instead
 	RootSwitch string `json:"root_switch,omitempty"` // after a first round of loads the root symlink is re-pointed to this directory
+	Cwd        string `json:"cwd,omitempty"`         // working directory relative to base ("" = base); relative roots are spelled against it
 
 	hintLoc, hintLoader, hintVia string
 }
@@ -119,6 +120,16 @@ func (fsEngine) Gen(r *Rand, tier string) any {
 			links = append(links, p)
 		}
 		c.RootSpec = PickStr(r, []string{"@/root", "@/root", "@/root/", "@/root/", "@/rootlink", "@/rootlink/", "root", "root/", "@/root/a/..", "./root", "@/root//", "@/./root"})
+		if r.Chance(1, 6) {
+			// the root spelled relative to a working directory at or below it
+			if r.Bool() {
+				c.Cwd = "root"
+				c.RootSpec = PickStr(r, []string{".", "./", "a/..", "../root", "./.", "a/b/../..", "../rootlink"})
+			} else {
+				c.Cwd = "root/a"
+				c.RootSpec = PickStr(r, []string{"..", "../", "b/../..", "../../root", "../."})
+			}
+		}
 		if r.Chance(1, 5) {
 			// a deployment switch: the root is a symlink that is re-pointed between two rounds of loads
 			c.RootSpec = PickStr(r, []string{"@/rootlink", "@/rootlink/"})
@@ -399,8 +410,8 @@ func (fsEngine) Run(ci any, st *Stats) *Violation {
 		return nil // an unbuildable (shrunk) layout is not a case
 	}
 	cwd, _ := os.Getwd()
-	if err := os.Chdir(d.base); err != nil {
-		return Violf("harness", "chdir: %v", err)
+	if err := os.Chdir(filepath.Join(d.base, c.Cwd)); err != nil {
+		return nil // a shrunk layout without the working directory is not a case
 	}
 	defer func() { _ = os.Chdir(cwd) }()
 
@@ -410,11 +421,20 @@ func (fsEngine) Run(ci any, st *Stats) *Violation {
 		rootDir = d.base + "/" + strings.TrimPrefix(rootDir, "@/")
 	}
 	lib := &lisp.RelativeFileSystemLibrary{RootDir: rootDir}
-	if _, _, ok := d.spec.resolve(strings.Split(strings.TrimPrefix(c.RootSpec, "@/"), "/")); !ok {
+	rootComps := func() []string {
+		if strings.HasPrefix(c.RootSpec, "@/") {
+			return strings.Split(strings.TrimPrefix(c.RootSpec, "@/"), "/")
+		}
+		return append(strings.Split(c.Cwd, "/"), strings.Split(c.RootSpec, "/")...)
+	}
+	if _, _, ok := d.spec.resolve(rootComps()); !ok {
 		return nil
 	}
-	h := NewHash().Str(c.RootSpec)
+	h := NewHash().Str(c.RootSpec).Str(c.Cwd)
 	nontrivial := false
+	if c.Cwd != "" {
+		st.Inc("config_root_relative_to_working_directory")
+	}
 
 	// adversary step at the guarded hook between resolution and read
 	var undo []func()
@@ -468,7 +488,7 @@ func (fsEngine) Run(ci any, st *Stats) *Violation {
 	}
 
 	resolveRoot := func() bool {
-		real, kind, ok := d.spec.resolve(strings.Split(strings.TrimPrefix(c.RootSpec, "@/"), "/"))
+		real, kind, ok := d.spec.resolve(rootComps())
 		if !ok || kind != "dir" {
 			return false
 		}
@@ -511,7 +531,11 @@ func (fsEngine) Run(ci any, st *Stats) *Violation {
 		fail := func(oracle, format string, a ...any) *Violation {
 			c.hintLoc, c.hintLoader, c.hintVia = strings.ReplaceAll(ld.loc, d.base, "@"), ld.loader, ld.via
 			msg := strings.ReplaceAll(fmt.Sprintf(format, a...), d.base, "@")
-			return Violf(oracle, "root %s, loading file %q, location %q via %s: %s", c.RootSpec, ld.loader, strings.ReplaceAll(ld.loc, d.base, "@"), ld.via, msg)
+			rootText := c.RootSpec
+			if c.Cwd != "" {
+				rootText += " (working directory @/" + c.Cwd + ")"
+			}
+			return Violf(oracle, "root %s, loading file %q, location %q via %s: %s", rootText, ld.loader, strings.ReplaceAll(ld.loc, d.base, "@"), ld.via, msg)
 		}
 		loc := strings.ReplaceAll(ld.loc, "@", d.base)
 		st.Runs++
